@@ -174,6 +174,8 @@ def read_substitution_matrix(file):
 
 
 def detect_ndim(s):
+    if isinstance(s, array):
+        return 1
     if np is not None and isinstance(s, np.ndarray):
         return s.ndim
     if type(s) is list and len(s) > 0:
@@ -236,6 +238,8 @@ class SeriesContainer:
                     self.detected_ndim = len(self.series[0][0])
                 else:
                     self.detected_ndim = 1
+            elif isinstance(self.series[0], array):
+                self.detected_ndim = 1
         else:
             self.series = series
 
